@@ -61,6 +61,69 @@ CLAIMS = {
              '(one entry per distinct version key). Bounded: partitions over 1-3 members in every order, composite-attached filters, relationship graphs x options through store/source/composite/Environment.',
         note='The member loop of get() is abstracted (answers arbitrary); relationships()/related_to() filter-list construction is covered by the bounded part only.',
         technique='contract-based deductive verification of the selection and de-duplication loops (PyVC + z3); bounded federation/navigation enumeration'),
+
+    'C01': dict(category='exploration', design_ref='DESIGN.md section 3 C01',
+        text='Bounded stand-in carries the property: every class variant of a table-driven generator (all types of both versions, minimal / each optional / all optional, 2-3 value '
+             'classes) plus custom properties and 12 special shapes: parse(serialize(o)) == o with the same class, byte-identical second serialization, 48 option sets denote '
+             'the same JSON value up to defaulted optional properties, pretty order == frozen specification order. A small proved core (encoder default methods, timestamp '
+             'fixed point, detection, no memoisation of lookups) supports it.',
+        note='simplejson assumed; NaN outside the quantifier; the generator is as complete as spec/tables_* and the seeds in vf/objgen.py.',
+        technique='bounded exhaustive enumeration against the object itself (stand-in), with contract-proved core functions (PyVC + z3)'),
+    'C02': dict(category='other', design_ref='DESIGN.md section 3 C02',
+        text='Proved: language of every lexical regex == specification grammar (two inclusion queries each, concrete witness strings), _validate_type / IntegerProperty.clean iff '
+             'contracts, ten timestamp-order co-constraints, strict-mode refusal of custom content in List/Hashes/Reference cleaners, validators read no mutable module state. '
+             'Exhaustive table invariant (1382 property slots == frozen model). Bounded fault enumeration: (type, property, corruption kind) -> error or output accepted by an independent validator.',
+        note='The frozen tables were bootstrapped from the tree after the fix commits (a regression oracle reviewed where the library was known to deviate); _STIXBase.__init__ composition is bounded only; pattern validity delegated to stix2patterns.',
+        technique='regular-language equivalence and cleaner contracts by deductive verification (PyVC + z3 regex/LIA); exhaustive table comparison; bounded fault enumeration with an independent validator'),
+    'C03': dict(category='other', design_ref='DESIGN.md section 3 C03',
+        text='Proved acceptance halves (every string of each specification grammar accepted; valid integers/type names accepted; co-constraints raise only when violated; dispatch). '
+             'Bounded: generated specification-valid objects (checked by the independent validator) are accepted in strict mode bare / in a bundle / as observed-data member and preserved; '
+             'every vocabulary entry and legal reference target; granular markings on every path; frozen acceptance list.',
+        note='Known finding: timestamps with >= 7 fraction digits are rejected. Completeness of the generator w.r.t. the prose specification is not claimed.',
+        technique='deductive verification of acceptance directions (PyVC + z3); bounded generator-driven acceptance/preservation check'),
+    'C04': dict(category='other', design_ref='DESIGN.md section 3 C04',
+        text='Proved: custom-flag protocol of ListProperty / HashesProperty / ReferenceProperty.clean (prefix invariants: flag == OR over parts, strict => none) and dict_to_stix2 unknown-type handling. '
+             'Bounded: every valid object x injection site x custom kind x both switch settings: strict refusal, and has_custom <=> strict re-parse of the serialization refused.',
+        note='Known finding: the documented custom_properties keyword admits custom properties in strict mode. Unregistered extension-definition extensions are sanctioned by the library (not treated as custom).',
+        technique='loop-invariant proofs of the customisation protocol (PyVC + z3); bounded injection enumeration'),
+    'C06': dict(category='other', design_ref='DESIGN.md section 3 C06',
+        text='Proved: _choose_one_hash priority order; the 2.1 observable constructor replaces the id iff none was given and one was generated; id code reads no mutable state. Exhaustive: '
+             'id-contributing lists == frozen model, namespace constant. Bounded: ids of every SCO type x variants x boundary values equal an independent recomputation (own RFC 8785 + SHA-1), determinism across orders / round trips / processes.',
+        note='_generate_id loop and _make_json_serializable are covered by the bounded recomputation only; SHA-1 collision freedom assumed.',
+        technique='contract proofs of the selection logic (PyVC + z3); bounded comparison with an independent canonicalizer + UUIDv5'),
+    'C07': dict(category='exploration', design_ref='DESIGN.md section 3 C07',
+        text='Bounded stand-in carries the granular laws: states reachable by <= 2 adds on 3 base objects x 10 selectors (incl. string-prefix siblings) x 3 markings x flag combinations against a set model; '
+             'object-level operations are proved as set algebra (add = union, remove = difference with MarkingNotFoundError iff absent, is_marked, clear).',
+        note='Granular functions (nested loops over nested data) are outside the verified subset.',
+        technique='bounded enumeration against a set model; set-algebra contracts for object-level markings (PyVC + z3 arrays)'),
+    'C08': dict(category='other', design_ref='DESIGN.md section 3 C08',
+        text='Proved: SELECTOR_REGEX == selector grammar; _evaluate_expression non-empty <=> some path equals the selector regardless of the stored value; _validate_selector; validate raises iff empty or some selector addresses nothing; '
+             'every _check_object_constraints override calls the base implementation. Bounded: iterpath against an independent path enumerator on a shape family, every path and near miss through 10 entry points.',
+        note='iterpath (recursive generator over nested mutable data) is bounded only.',
+        technique='deductive verification of the selector functions (PyVC + z3) + syntactic call obligations; bounded path enumeration'),
+    'C09': dict(category='exploration', design_ref='DESIGN.md section 3 C09',
+        text='Bounded stand-in: totality, reflexivity, symmetry, transitivity and SOUNDNESS against an independent evaluator of the patterning semantics on a generated pattern family and 1.6k+ observation sequences; '
+             'documented rewrite laws recognised; find == filter. Leaf comparators (generic_cmp, iter_in) are proved and their order lemmas discharged.',
+        note='Soundness beyond the bounded universe is not claimed; ANTLR parser assumed; special-value canonicalisations not exercised.',
+        technique='bounded enumeration with an independent semantics evaluator; leaf comparator contracts (PyVC + z3)'),
+    'C10': dict(category='exploration', design_ref='DESIGN.md section 3 C10',
+        text='Bounded stand-in only: generated pattern trees printed with an independent precedence-aware printer; text -> object model -> text -> independent reader gives the same tree; print o parse fixed point; the same trees built through the public model classes read back identically; both grammars.',
+        note='No clause proved (ANTLR visitor and %-formatting over opaque objects are outside the verified subset).',
+        technique='bounded grammar-driven round-trip enumeration with an independent reader'),
+    'C13': dict(category='exploration', design_ref='DESIGN.md section 3 C13',
+        text='Bounded stand-in: deep snapshots of arguments and of existing objects around 26 public operations singly and in pairs on nested shapes; assignment/deletion refused; deepcopy equal and disjoint (id walk). '
+             'Proved core: __setattr__ refuses every public name; __deepcopy__ builds from copy.deepcopy(self._inner) and stores only into that private copy.',
+        note='General absence of aliasing writes needs an ownership discipline Python lacks: bounded only.',
+        technique='bounded frame checking with deep snapshots; contract proofs of __setattr__/__deepcopy__ (PyVC + z3)'),
+    'C16': dict(category='exploration', design_ref='DESIGN.md section 3 C16',
+        text='Bounded stand-in only: canonicalize(v) compared with an independent RFC 8785 spec function (validated each run against the RFC Appendix B samples) on a grid of numbers (powers of two and neighbours, d*10^e, boundaries), strings/keys over boundary characters (UTF-16 vs code-point order), nesting; parse-back, idempotence, order independence, NaN/inf refusal.',
+        note='No clause proved (closure-based encoder, float formatting).',
+        technique='bounded differential testing against an independent specification function'),
+    'C19': dict(category='other', design_ref='DESIGN.md section 3 C19',
+        text='Proved: each _register_* is exact and exclusive (duplicate => DuplicateRegistrationError with no registry store; success => exactly one store into the chosen version/category map, name was free); '
+             'type-name grammar == specification per version; validators read no mutable module state. Bounded: registration histories in fresh subprocesses, version scoping of parse, round trip of registered types, reference-property naming rule.',
+        note='Known finding: custom property names are checked for their first character only.',
+        technique='deductive verification of the registration functions with ghost store records (PyVC + z3); bounded history enumeration in subprocesses'),
 }
 NOT_BUILT = 'contracts stated in DESIGN.md, check not built yet'
 
